@@ -353,6 +353,15 @@ Fixpoint rec_ok (i from : Z) (ops : list cop) (obs : list (list Z)) : bool :=
   | _, _ => true
   end.
 
+(* C03: a faulted exchange ends as an error response (5xx) or an aborted connection (-1), never as a success *)
+Fixpoint faults_visible (ops : list cop) (obs : list (list Z)) : bool :=
+  match ops, obs with
+  | CEnd _ code :: t, ob :: obs' =>
+      (if code <? 0 then nth 0 ob 0 <? 0 else if 500 <=? code then 500 <=? nth 0 ob 0 else true) && faults_visible t obs'
+  | _ :: t, _ :: obs' => faults_visible t obs'
+  | _, _ => true
+  end.
+
 Fixpoint has_fault (n : Z) (ops : list cop) : bool :=
   match ops with
   | [] => false
@@ -381,4 +390,5 @@ Definition eval_lb_case (k : lb_case) : list Z :=
     b2z (rec_ok 0 (k_rec_from k) (k_ops k) (k_obs k));                      (* 22 mon_c03_recover *)
     b2z (nt_c02 m); b2z (nt_c04 m); b2z (nt_c07 m); b2z (nt_c09 m); b2z (nt_c11 m);   (* 23..27 *)
     b2z (2 <=? nt_c13 m);                                                   (* 28 *)
-    b2z (has_fault (k_rec_from k) (k_ops k)) ].                             (* 29 nt_c03 *)
+    b2z (has_fault (k_rec_from k) (k_ops k));                               (* 29 nt_c03 *)
+    b2z (faults_visible (k_ops k) (k_obs k)) ].                             (* 30 mon_c03_fault_visible *)
